@@ -145,6 +145,8 @@ struct G<'a> {
     rng: Rng,
     corpus: Vec<Vec<u8>>,
     thorough: bool,
+    /// op kinds of which one example went to the stats samples
+    sampled: Vec<String>,
 }
 
 impl<'a> G<'a> {
@@ -162,6 +164,10 @@ impl<'a> G<'a> {
             "other"
         };
         self.ctx.count(&format!("op:{}:{}", kind, res));
+        if !self.sampled.iter().any(|k| k == kind) && op.len() <= 200 && obs.len() <= 260 && (kind != "parse" || res == "ok") {
+            self.sampled.push(kind.to_string());
+            self.ctx.sample(format!("{} -> {}", op, obs));
+        }
         if kind == "parse" && res == "ok" {
             for tag in ["S=ERR", "S=PANIC", "P=ERR", "P=PANIC"] {
                 if obs.contains(tag) {
@@ -771,7 +777,7 @@ impl<'a> G<'a> {
                     let hets: Vec<u8> = if self.thorough { UNKNOWN_VAR_HETS.to_vec() } else { vec![UNKNOWN_VAR_HETS[rot % 6]] };
                     rot += 1;
                     for het in hets {
-                        let toi: u128 = if pos == 1 { 0 } else { 1 + self.rng.below(1 << 20) as u128 };
+                        let toi: u128 = if pos == 1 { 0 } else { 1 + self.rng.below(65535) as u128 };
                         let mut exts = Vec::new();
                         if toi == 0 {
                             exts.push(rd::enc_ext_fdt(2, self.rand_fdt_id() as u32));
@@ -795,7 +801,7 @@ impl<'a> G<'a> {
                         self.ctx.nontrivial(&format!("spec-unknown:{}:{}:{}:{}", fec, het, hel, pos));
                         self.ctx.count(if hel >= 64 { "spec:unknown-ext-hel>=64" } else { "spec:unknown-ext-hel<64" });
                         self.spec_ops(&d, &f, true);
-                        if hel == 63 || hel == 64 {
+                        if (hel == 63 || hel == 64) && pos == 1 && het == UNKNOWN_VAR_HETS[(rot - 1) % 6] {
                             self.corpus.push(d);
                         }
                     }
@@ -898,9 +904,6 @@ impl<'a> G<'a> {
             if i < 12 {
                 self.corpus.push(d.clone());
             }
-            if i < 2 {
-                self.ctx.sample(format!("wire parse {}", hex(&d)));
-            }
         }
     }
 
@@ -931,15 +934,17 @@ impl<'a> G<'a> {
                 self.ntp_pair(s * 1_000_000 + us);
             }
         }
-        self.ctx.case("ntp/random");
-        for _ in 0..self.n(2000, 40000) {
+        for i in 0..self.n(2000, 40000) {
+            if i % 2000 == 0 {
+                self.ctx.case(&format!("ntp/random-{}", i / 2000));
+            }
             let us = self.rng.below((ERA_END_SECS + 1) * 1_000_000);
             self.ntp_pair(us);
         }
         // every microsecond of one second: the 15625-divisibility pattern
         self.ctx.case("ntp/one-second");
         let base = 1_700_000_000u64 * 1_000_000;
-        let stride = self.n(97, 7);
+        let stride = self.n(97, 31);
         let mut us = 0;
         while us < 1_000_000 {
             self.ntp_pair(base + us);
@@ -973,7 +978,8 @@ impl<'a> G<'a> {
     // -------------------------------------------------------------------------------------------
     // e. malformed stream
     // -------------------------------------------------------------------------------------------
-    fn mal(&mut self, d: &[u8], plct: bool) {
+    /// one malformed (or mutated) datagram: `parse`, + `plct` (lvl bit 0), + `rfc` (lvl bit 1)
+    fn mal(&mut self, d: &[u8], lvl: u8) {
         let h = hex(d);
         if d.len() >= 3 && 4 * d[2] as usize <= d.len() {
             self.ctx.nontrivial(&format!("mal:{}", h));
@@ -982,24 +988,28 @@ impl<'a> G<'a> {
             self.ctx.count("malformed:stopped-by-first-length-check");
         }
         self.step(&format!("wire parse {}", h));
-        if plct {
+        if lvl & 1 != 0 {
             self.step(&format!("wire plct {}", h));
+        }
+        // the Lean spec decoder works on lists of naturals: keep `rfc` on long datagrams sparse in quick
+        if lvl & 2 != 0 && (d.len() <= 200 || self.thorough || self.rng.chance(1, 8)) {
+            self.step(&format!("wire rfc {}", h));
         }
     }
 
     fn phase_small(&mut self) {
         // ALL byte strings of length 0, 1, 2
         self.ctx.case("mal/len0-1");
-        self.mal(&[], true);
+        self.mal(&[], 3);
         for a in 0..=255u8 {
-            self.mal(&[a], true);
+            self.mal(&[a], 3);
         }
         for a in 0..=255u8 {
             self.ctx.case(&format!("mal/len2-{:02x}", a));
             for b in 0..=255u8 {
                 // `plct` on every 2-byte string in thorough, on the version-1/2 first bytes in quick
                 let plct = self.thorough || a >> 4 == 1 || a >> 4 == 2;
-                self.mal(&[a, b], plct);
+                self.mal(&[a, b], plct as u8);
             }
         }
         self.ctx.exhaustive = true;
@@ -1008,38 +1018,39 @@ impl<'a> G<'a> {
             self.ctx.case(&format!("mal/len3-{:02x}", a));
             for b in 0..=255u8 {
                 for c in 0..=3u8 {
-                    self.mal(&[a, b, c], true);
+                    self.mal(&[a, b, c], 1);
                 }
             }
         }
-        // ... plus a seeded sample of the rest (1/256 quick, 1/4 thorough)
-        let den = self.n(256, 4);
-        let mut cnt = 0u64;
+        // ... plus the rest: ALL 16.7M strings in thorough, a 1/512 seeded sample in quick
+        let den = self.n(512, 1);
         for a in 0..=255u8 {
-            self.ctx.case(&format!("mal/len3-sample-{:02x}", a));
             for b in 0..=255u8 {
+                if b % 16 == 0 {
+                    self.ctx.case(&format!("mal/len3-rest-{:02x}{:x}", a, b >> 4));
+                }
                 for c in 0..=255u8 {
-                    if ((a == 0x10 || a == 0x20) && c <= 3) || !self.rng.chance(1, den) {
+                    if ((a == 0x10 || a == 0x20) && c <= 3) || (den > 1 && !self.rng.chance(1, den)) {
                         continue;
                     }
-                    cnt += 1;
-                    self.mal(&[a, b, c], false);
+                    self.mal(&[a, b, c], 0);
                 }
             }
         }
-        self.ctx.count(&format!("malformed:len3-sampled-1/{}", den));
-        let _ = cnt;
+        self.ctx.count(&format!("malformed:len3-rest-sampled-1/{}", den));
         // 4..8 byte strings around a minimal header
-        self.ctx.case("mal/short-random");
-        for _ in 0..self.n(3000, 60000) {
-            let n = 3 + self.rng.below(14) as usize;
+        for i in 0..self.n(3000, 60000) {
+            if i % 1000 == 0 {
+                self.ctx.case(&format!("mal/short-random-{}", i / 1000));
+            }
+            let n = 4 + self.rng.below(13) as usize;
             let mut d = self.rng.bytes(n);
             d[0] = if self.rng.chance(7, 8) { 0x10 | (d[0] & 0x0f) } else { d[0] };
             d[2] = if self.rng.chance(7, 8) { d[2] % 6 } else { d[2] };
             if self.rng.bool() {
                 d[3] = *self.rng.pick(&FECS);
             }
-            self.mal(&d, true);
+            self.mal(&d, 3);
         }
     }
 
@@ -1056,11 +1067,11 @@ impl<'a> G<'a> {
                 }
                 None => (4, 4, d.len().min(64)),
             };
-            self.mal(d, true);
+            self.mal(d, 3);
             // every truncation of the header region (+ the cut just before the end)
-            for n in (0..=region.min(160)).chain(if d.len() > 0 { Some(d.len() - 1) } else { None }) {
-                if n < d.len() {
-                    self.mal(&d[..n], n <= fixed + 4);
+            for n in (0..=region).chain(if d.len() > 0 { Some(d.len() - 1) } else { None }) {
+                if n < d.len() && (n <= 160 || n + 8 >= region || self.thorough || n % 16 == 0) {
+                    self.mal(&d[..n], if n <= fixed + 4 { 3 } else { 2 });
                 }
             }
             // single-byte substitutions in the header region
@@ -1084,7 +1095,7 @@ impl<'a> G<'a> {
                     }
                     let mut m = d.clone();
                     m[pos] = v;
-                    self.mal(&m, pos < fixed);
+                    self.mal(&m, if pos < fixed { 3 } else if v == 0 || v == 0xff { 2 } else { 0 });
                 }
             }
             // field-aware edits
@@ -1098,23 +1109,23 @@ impl<'a> G<'a> {
             let words = (hdr / 4) as i64;
             for v in [0i64, 1, 2, (fixed / 4) as i64 - 1, (fixed / 4) as i64, words - 1, words + 1, words + 2, (d.len() / 4) as i64, (d.len() / 4) as i64 + 1, 255] {
                 if (0..=255).contains(&v) && v != words {
-                    self.mal(&set(2, v as u8), true);
+                    self.mal(&set(2, v as u8), 3);
                 }
             }
             // C / PSI / version
             for v in 0..=255u8 {
                 if v >> 4 == 1 || v >> 4 == 2 || v & 0x0f == d[0] & 0x0f {
-                    self.mal(&set(0, v), true);
+                    self.mal(&set(0, v), 3);
                 }
             }
             // S / O / H / Res / A / B
             for v in 0..=255u8 {
-                self.mal(&set(1, v), true);
+                self.mal(&set(1, v), 3);
             }
             // codepoint
             for v in [0u8, 1, 2, 5, 6, 129, 3, 4, 7, 128, 130, 255] {
                 let m = set(3, v);
-                self.mal(&m, false);
+                self.mal(&m, 2);
                 if v == 2 {
                     for mm in [8u8, 16, 31, 32, 255] {
                         self.step(&format!("wire pid {} {}", hex(&m), mm));
@@ -1125,28 +1136,28 @@ impl<'a> G<'a> {
             let mut off = fixed;
             for e in &p.lct.exts {
                 for v in [0u8, 2, 64, 127, 128, 192, 193, 255] {
-                    self.mal(&set(off, v), false);
+                    self.mal(&set(off, v), 2);
                 }
                 if e.het < 128 {
                     let hel = e.hel as i64;
                     for v in [0i64, 1, 2, 3, 4, 5, hel - 1, hel + 1, 63, 64, 65, 128, 192, 255] {
                         if (0..=255).contains(&v) && v != hel {
-                            self.mal(&set(off + 1, v as u8), false);
+                            self.mal(&set(off + 1, v as u8), 2);
                         }
                     }
                 }
                 match e.het {
                     rd::HET_TIME => {
                         for fl in 0..16u8 {
-                            self.mal(&set(off + 2, (fl << 4) | (d[off + 2] & 0x0f)), false);
+                            self.mal(&set(off + 2, (fl << 4) | (d[off + 2] & 0x0f)), 2);
                         }
                         if e.hel >= 2 {
                             // seconds below the 1970 offset
                             let mut m = d.clone();
                             m[off + 4..off + 8].copy_from_slice(&[0x83, 0xaa, 0x7e, 0x7f]);
-                            self.mal(&m, false);
+                            self.mal(&m, 2);
                             m[off + 4..off + 8].copy_from_slice(&[0, 0, 0, 0]);
-                            self.mal(&m, false);
+                            self.mal(&m, 2);
                         }
                     }
                     rd::HET_FTI => {
@@ -1158,26 +1169,26 @@ impl<'a> G<'a> {
                                     let mut m = d.clone();
                                     m[off + 10] = b;
                                     m[off + 11] = n;
-                                    self.mal(&m, false);
+                                    self.mal(&m, 2);
                                 }
                             }
                             2 if len == 16 => {
                                 for mm in [0u8, 1, 8, 16, 31, 32, 33, 64, 128, 255] {
                                     let m = set(off + 8, mm);
-                                    self.mal(&m, false);
+                                    self.mal(&m, 2);
                                     self.step(&format!("wire rfc {}", hex(&m)));
                                 }
                                 for g in [0u8, 255] {
-                                    self.mal(&set(off + 9, g), false);
+                                    self.mal(&set(off + 9, g), 2);
                                 }
                                 let mut m = d.clone();
                                 m[off + 12..off + 16].copy_from_slice(&[0xff, 0xff, 0, 1]); // max_n < B
-                                self.mal(&m, false);
+                                self.mal(&m, 2);
                             }
                             129 if len == 16 => {
                                 let mut m = d.clone();
                                 m[off + 12..off + 16].copy_from_slice(&[0xff, 0xff, 0, 1]); // max_n < B
-                                self.mal(&m, false);
+                                self.mal(&m, 2);
                             }
                             1 | 6 if len == 16 => {
                                 for (a, b, v) in [(8usize, 10usize, 0u8), (10, 12, 0), (13, 14, 0), (13, 14, 3), (13, 14, 255), (12, 16, 0), (2, 10, 0xff)] {
@@ -1185,7 +1196,7 @@ impl<'a> G<'a> {
                                     for x in &mut m[off + a..off + b] {
                                         *x = v;
                                     }
-                                    self.mal(&m, false);
+                                    self.mal(&m, 2);
                                 }
                             }
                             _ => {}
@@ -1243,8 +1254,7 @@ pub fn run(ctx: &mut Ctx, eng: &mut dyn Engine) {
         .join(" ");
     let rng = Rng::new(ctx.seed);
     let thorough = ctx.tier_thorough;
-    let mut g = G { ctx, eng, rng, corpus: Vec::new(), thorough };
-    g.ctx.sample("wire lct 0 1 1 1 0 0 0 -> ok 101003000000000100010001".to_string());
+    let mut g = G { ctx, eng, rng, corpus: Vec::new(), thorough, sampled: Vec::new() };
     g.phase_lct();
     g.phase_pkt();
     g.phase_spec();
